@@ -10,6 +10,7 @@
 //!   V <prop> ...   the direct oracle saw the *property* fail on the real code
 //!   # ...          statistics
 mod fam_readn;
+mod fam_stream;
 mod util;
 
 use std::io::Write;
@@ -17,7 +18,12 @@ use std::panic::{catch_unwind, AssertUnwindSafe};
 use util::{Exec, Family, Rng, StepOut};
 
 fn families() -> Vec<Box<dyn Family>> {
+    let mut v: Vec<Box<dyn Family>> =
     vec![Box::new(fam_readn::ReadNFamily)]
+    ;
+    v.push(Box::new(fam_stream::ChunkerFamily));
+    v.push(Box::new(fam_stream::ReaderFamily));
+    v
 }
 
 struct Stats {
